@@ -143,7 +143,8 @@ func mergeDefaults(c *Client) {
 	if c.Backoff.Multiplier < 1 {
 		c.Backoff.Multiplier = DefaultClient.Backoff.Multiplier
 	}
-	if c.Backoff.Jitter <= 0 || c.Backoff.Jitter >= 1 {
+	// -1 is the documented way to disable randomization and must be kept.
+	if c.Backoff.Jitter != -1 && (c.Backoff.Jitter <= 0 || c.Backoff.Jitter >= 1) {
 		c.Backoff.Jitter = DefaultClient.Backoff.Jitter
 	}
 	if c.ResponseValidator == nil {
